@@ -136,7 +136,8 @@ def step (d : DSt) (toks : List String) : DSt × String :=
              where_ := w == "1", minTs := optI mn, maxTs := optI mx, ranged := rg == "1" }
     let req : Req := { id := id.toNat?.getD 0, query := q, pos := parsePosText pos, limit := lim.toNat?.getD 0,
                        offset := off.toInt?.getD 0, wait := wait == "1" }
-    let (srv, pg) := query Logrange.Generated.C03.queryMaxLimit { d.srv with store := d.store } (natList perm) req
+    -- `perm` (the leaf order the harness observed) is no longer an input: `newCursor` sorts its sources
+    let (srv, pg) := query Logrange.Generated.C03.queryMaxLimit { d.srv with store := d.store } req
     let qs := match pg.next.query with | some q => toString q.text | none => "none"
     ({ d with srv := srv }, s!"id={pg.next.id} q={qs} pos={showPosText pg.next.pos} limit={pg.next.limit} ev={labels pg.events}")
   | ["pos.show", c, i] =>
